@@ -210,6 +210,8 @@ Definition is_time_key (k : string) : bool :=
   mem k ["minute_of_hour"; "hour_of_day"; "hour_of_day_decimal_string";
          "minute_of_hour_decimal_string"; "second_of_minute"; "second_of_minute_decimal_string"].
 
+Definition is_zone_key (k : string) : bool := negb (is_date_key k) && negb (is_time_key k).
+
 Lemma strptime_unfold T md cfg text fmt :
   strptime T md cfg text fmt =
   match build_p T (split_format fmt "") with
@@ -223,7 +225,7 @@ Lemma strptime_unfold T md cfg text fmt :
       | None =>
         let de := filter (fun kv => is_date_key (fst kv)) e in
         let te := filter (fun kv => is_time_key (fst kv)) e in
-        let ze := filter (fun kv => negb (is_date_key (fst kv)) && negb (is_time_key (fst kv))) e in
+        let ze := filter (fun kv => is_zone_key (fst kv)) e in
         match process_zone cfg ze with
         | PErr x => PErr x
         | POk z => create_timepoint md cfg (mkInfo de te z "") "" false
@@ -846,3 +848,118 @@ Proof.
   - destruct (String.eqb k k') eqn:E; [|exact IH].
     apply String.eqb_eq in E. subst. rewrite F in *. exact IH.
 Qed.
+
+Definition opt {A} (b : bool) (x : A) : option A := if b then Some x else None.
+Lemma has_opt {A} (b : bool) (x : A) : (match opt b x with Some _ => true | None => false end) = b.
+Proof. destruct b; reflexivity. Qed.
+Lemma map_opt {A B} (f : A -> B) b x : option_map f (opt b x) = opt b (f x).
+Proof. destruct b; reflexivity. Qed.
+Lemma od_opt b x : od (opt b x) = if b then x else 0.
+Proof. destruct b; reflexivity. Qed.
+Lemma uses_nil items : uses [] items = false.
+Proof. induction items as [|[l|d] items IH]; [reflexivity| |]; cbn [uses existsb mem]; exact IH. Qed.
+
+Lemma bindings_app a : forall x y, bindings (x ++ y) a = (bindings x a ++ bindings y a)%list.
+Proof. induction x as [|t x IH]; intros y; [reflexivity|]. destruct t; cbn [List.app bindings]; rewrite IH; reflexivity. Qed.
+
+(* without %z (and %s) no group is a zone group *)
+Definition no_zone_toks (pt : list ptok) : bool :=
+  forallb (fun t => match tok_name t with Some nm => negb (is_zone_key nm) | None => true end) pt.
+Lemma shapes_no_zone :
+  forallb (fun row => mem (fst row) ["%z"; "%s"] || no_zone_toks (snd (snd row))) POSIX_SHAPES = true.
+Proof. vm_compute. reflexivity. Qed.
+Lemma no_zone_filter a : forall pt, no_zone_toks pt = true ->
+  filter (fun kv : string * string => is_zone_key (fst kv)) (bindings pt a) = [].
+Proof.
+  induction pt as [|t pt IH]; intros N; [reflexivity|]. cbn [no_zone_toks forallb] in N.
+  apply andb_true_iff in N. destruct N as [N1 N2]. specialize (IH N2).
+  destruct t; cbn [bindings filter fst tok_name] in *; try exact IH;
+    apply negb_true_iff in N1; rewrite N1; exact IH.
+Qed.
+Lemma ze_empty a : forall items, parse_fmt items = true -> uses ["%z"] items = false ->
+  filter (fun kv : string * string => is_zone_key (fst kv)) (bindings (toks_of items) a) = [].
+Proof.
+  induction items as [|it items IH]; intros P U; [reflexivity|].
+  destruct (parse_fmt_cons _ _ P) as [P' Hit].
+  cbn [uses existsb] in U. fold (uses ["%z"] items) in U. apply orb_false_iff in U. destruct U as [U1 U2].
+  specialize (IH P' U2). destruct it as [l|d]; cbn [toks_of flat_map]; fold (toks_of items).
+  - cbn [List.app bindings]. exact IH.
+  - destruct Hit as [M NS]. destruct (supported_lk d M) as (v & L1 & _). rewrite L1, bindings_app, filter_app, IH, app_nil_r.
+    apply no_zone_filter. pose proof shapes_no_zone as SZ. rewrite forallb_forall in SZ.
+    specialize (SZ _ (lk_In _ _ _ L1)). cbn [fst snd] in SZ. apply orb_true_iff in SZ. destruct SZ as [SZ|SZ]; [|exact SZ].
+    exfalso. cbn [mem existsb] in SZ, U1. rewrite orb_false_r in U1.
+    apply orb_true_iff in SZ. destruct SZ as [SZ|SZ]; [congruence|]. rewrite orb_false_r in SZ.
+    apply String.eqb_eq in SZ. contradiction.
+Qed.
+
+Lemma digit_env_filter keys (f : string -> bool) (e : env) :
+  digit_env keys e -> digit_env keys (filter (fun kv => f (fst kv)) e).
+Proof.
+  intros D k s K L. rewrite lookup_filter in L. destruct (f k); [|discriminate]. exact (D k s K L).
+Qed.
+
+(* the constructor call strptime makes on the POSIX text of a civil date-time *)
+Definition parsed_call (md : mode) (cfg : pcfg) (c : civil) (items : list fitem) : pres ptp :=
+  zn <-- (if uses ["%z"] items then POk (Some (czh c, Some (czm c))) else zone_num cfg []) ;;;
+  construct md (Some (if uses ["%Y"; "%F"] items then cy c else 0))
+            (opt (uses ["%m"; "%F"] items) (cm c)) (opt (uses ["%d"; "%F"] items) (cd c))
+            (opt (uses ["%j"] items) (cdoy c)) None None
+            (opt (uses ["%H"; "%X"] items) (qz (ch c))) None
+            (opt (uses ["%M"; "%X"] items) (qz (cmi c))) None
+            (opt (uses ["%S"; "%X"] items) (qz (cs c))) None
+            zn false "" 0 "" false.
+
+Section Strp.
+Variables (md : mode) (cfg : pcfg) (c : civil) (items : list fitem).
+Hypothesis R : civil_ranges md c.
+Hypothesis P : parse_fmt items = true.
+
+Let S : supported_fmt items = true.
+Proof. unfold parse_fmt in P. apply andb_true_iff in P. tauto. Qed.
+Let e := bindings (toks_of items) (asg c).
+Let NG : nogrp (toks_of items) = true.
+Proof.
+  destruct (toks_text c (cr_year _ _ R) items P) as (s & _ & _ & _ & OK).
+  unfold row_parse_ok in OK. repeat (apply andb_true_iff in OK; destruct OK as [OK ?]). apply fixedw_nogrp. exact OK.
+Qed.
+
+Ltac ev_key :=
+  repeat match goal with
+         | |- context [is_date_key ?k] => let b := eval vm_compute in (is_date_key k) in change (is_date_key k) with b
+         | |- context [is_time_key ?k] => let b := eval vm_compute in (is_time_key k) in change (is_time_key k) with b
+         | |- context [is_zone_key ?k] => let b := eval vm_compute in (is_zone_key k) in change (is_zone_key k) with b
+         end.
+Ltac lk_key ds := rewrite lookup_filter; ev_key; try reflexivity; unfold e; rewrite (lookup_bindings _ _ _ NG);
+  match goal with |- context [binds ?k (toks_of items)] => rewrite (binds_toks k ds eq_refl items S) end;
+  rewrite ?uses_nil; reflexivity.
+
+Let de := filter (fun kv : string * string => is_date_key (fst kv)) e.
+Let te := filter (fun kv : string * string => is_time_key (fst kv)) e.
+Let ze := filter (fun kv : string * string => is_zone_key (fst kv)) e.
+Let uY := uses ["%Y"; "%F"] items. Let uM := uses ["%m"; "%F"] items. Let uD := uses ["%d"; "%F"] items.
+Let uJ := uses ["%j"] items. Let uH := uses ["%H"; "%X"] items. Let uMi := uses ["%M"; "%X"] items.
+Let uS := uses ["%S"; "%X"] items. Let uZ := uses ["%z"] items.
+
+Lemma L_trunc_d : lookup_env "truncated" de = None. Proof. unfold de. lk_key (@nil string). Qed.
+Lemma L_exp : lookup_env "expanded_year" de = None. Proof. unfold de. lk_key (@nil string). Qed.
+Lemma L_sign : lookup_env "year_sign" de = None. Proof. unfold de. lk_key (@nil string). Qed.
+Lemma L_yod : lookup_env "year_of_decade" de = None. Proof. unfold de. lk_key (@nil string). Qed.
+Lemma L_week : lookup_env "week_of_year" de = None. Proof. unfold de. lk_key (@nil string). Qed.
+Lemma L_dow : lookup_env "day_of_week" de = None. Proof. unfold de. lk_key (@nil string). Qed.
+Lemma L_cen : lookup_env "century" de = opt uY (digs 2 (cy c / 100)). Proof. unfold de. lk_key ["%Y"; "%F"]. Qed.
+Lemma L_yoc : lookup_env "year_of_century" de = opt uY (digs 2 (cy c mod 100)). Proof. unfold de. lk_key ["%Y"; "%F"]. Qed.
+Lemma L_month : lookup_env "month_of_year" de = opt uM (digs 2 (cm c)). Proof. unfold de. lk_key ["%m"; "%F"]. Qed.
+Lemma L_dom : lookup_env "day_of_month" de = opt uD (digs 2 (cd c)). Proof. unfold de. lk_key ["%d"; "%F"]. Qed.
+Lemma L_doy : lookup_env "day_of_year" de = opt uJ (digs 3 (cdoy c)). Proof. unfold de. lk_key ["%j"]. Qed.
+Lemma L_trunc_t : lookup_env "truncated" te = None. Proof. unfold te. lk_key (@nil string). Qed.
+Lemma L_hdec : lookup_env "hour_of_day_decimal" te = None. Proof. unfold te. lk_key (@nil string). Qed.
+Lemma L_mdec : lookup_env "minute_of_hour_decimal" te = None. Proof. unfold te. lk_key (@nil string). Qed.
+Lemma L_sdec : lookup_env "second_of_minute_decimal" te = None. Proof. unfold te. lk_key (@nil string). Qed.
+Lemma L_hour : lookup_env "hour_of_day" te = opt uH (digs 2 (ch c)). Proof. unfold te. lk_key ["%H"; "%X"]. Qed.
+Lemma L_min : lookup_env "minute_of_hour" te = opt uMi (digs 2 (cmi c)). Proof. unfold te. lk_key ["%M"; "%X"]. Qed.
+Lemma L_sec : lookup_env "second_of_minute" te = opt uS (digs 2 (cs c)). Proof. unfold te. lk_key ["%S"; "%X"]. Qed.
+Lemma L_utc : lookup_env "time_zone_utc" ze = None. Proof. unfold ze. lk_key (@nil string). Qed.
+Lemma L_zs : lookup_env "time_zone_sign" ze = opt uZ (zsign c). Proof. unfold ze. lk_key ["%z"]. Qed.
+Lemma L_zh : lookup_env "time_zone_hour" ze = opt uZ (digs 2 (zabs c / 60)). Proof. unfold ze. lk_key ["%z"]. Qed.
+Lemma L_zm : lookup_env "time_zone_minute" ze = opt uZ (digs 2 (zabs c mod 60)). Proof. unfold ze. lk_key ["%z"]. Qed.
+End Strp.
